@@ -597,8 +597,11 @@ func runC18(r *Run, stratum string) *Violation {
 			break
 		}
 		l.step(migActions())
-		if len(l.topo.Misdirected) > 0 {
-			setV("C18.asked_resident_key", "a unit was sent under ASKING to the importing node although its key still lives on the slot's owner", "%s", l.topo.Misdirected[0])
+		for i, k := range l.topo.MisdirectedKeys {
+			if migKeys[k] { // (the bookkeeping keys of a unit live nowhere in the double's model: not judged)
+				setV("C18.asked_resident_key", "a unit was sent under ASKING to the importing node although its key still lives on the slot's owner", "%s", l.topo.Misdirected[i])
+				break
+			}
 		}
 	}
 	for slot := range l.topo.Migrating {
